@@ -58,6 +58,8 @@ var c18IntTemplates = []string{
 	"{{ 20 | divided_by: x }}",
 	"{% assign y = x %}{{ y }}",
 	"{{ x | append: 'z' }}",
+	"{% for i in (x..9) %}{{ i }}{% endfor %}|{% for i in (0..x) %}{{ i }}{% endfor %}",
+	"{{ a | concat: xs | uniq | join: ',' }}",
 	"{% if x == 0 %}z{% endif %}{% if x <= 0 %}le{% endif %}{% if 0 == x %}rz{% endif %}{% case x %}{% when 0 %}zero{% else %}other{% endcase %}",
 	"{% if x > 0 %}pos{% endif %}{% if x >= 0 %}nn{% endif %}{% if x != 0 %}nz{% endif %}{% if a contains x %}in{% endif %}",
 }
@@ -68,8 +70,8 @@ func VerifC18Ints() {
 	k := 1 + nd.Choice(c18IntReps-1)
 	n := nd.IntIn(0, 9)
 	a := []any{1, 5, 7}
-	o1, e1 := vRender(t, Bindings{"x": n, "a": a})
-	o2, e2 := vRender(t, Bindings{"x": c18Int(n, k), "a": a})
+	o1, e1 := vRender(t, Bindings{"x": n, "a": a, "xs": []any{n, 5, n}})
+	o2, e2 := vRender(t, Bindings{"x": c18Int(n, k), "a": a, "xs": []any{c18Int(n, k), 5, n}})
 	nd.Assert((e1 == nil) == (e2 == nil), "int-rep-same-errorness")
 	if e1 == nil && e2 == nil {
 		nd.Assert(o1 == o2, "int-rep-same-output")
@@ -310,4 +312,43 @@ func VerifC18DropUniq() {
 	nd.Assert(e1 == nil && e2 == nil, "drop-uniq-no-error")
 	nd.Assert(o1 == "2" && o2 == o1, "drop-uniq-same-result")
 	nd.Reach("C18.dropuniq")
+}
+
+var c18DropArrayTemplates = []string{
+	"{{ a | sort_natural | join: ',' }}",
+	"{{ a | json }}",
+	"{{ a | compact | size }}",
+	"{{ a | uniq | join: ',' }}",
+	"{{ a | sort | join: ',' }}",
+	"{{ a | reverse | first }}|{{ a | last }}",
+	"{{ a | join: ',' }}|{{ a }}",
+	"{% for x in a %}[{{ x }}]{% endfor %}",
+	"{% if a contains 'b' %}has{% endif %}{% if a contains nil %}nil{% endif %}",
+	"{{ r | sort_natural: 'k' | map: 'k' | join: ',' }}",
+	"{{ r | map: 'k' | compact | join: ',' }}",
+}
+
+// VerifC18DropArrays: an array some of whose elements are Drops (standing for strings, nil, numbers)
+// goes through the array filters exactly as the array of the values they stand for.
+func VerifC18DropArrays() {
+	t := c18DropArrayTemplates[nd.Choice(len(c18DropArrayTemplates))]
+	s1 := []string{"a", "b", "B"}[nd.Choice(3)] // concrete: json and inspect are native
+	wrap := func(v any, on bool) any {
+		if on {
+			return c18Drop{v}
+		}
+		return v
+	}
+	d1, d2, d3 := nd.Bool(), nd.Bool(), nd.Bool()
+	plain := []any{"b", s1, nil, "a"}
+	drops := []any{wrap("b", d1), wrap(s1, d2), wrap(nil, d3), "a"}
+	rp := []any{map[string]any{"k": "b"}, map[string]any{"k": s1}, map[string]any{"k": nil}}
+	rd := []any{map[string]any{"k": wrap("b", d1)}, wrap(map[string]any{"k": s1}, d2), map[string]any{"k": wrap(nil, d3)}}
+	o1, e1 := vRender(t, Bindings{"a": plain, "r": rp})
+	o2, e2 := vRender(t, Bindings{"a": drops, "r": rd})
+	nd.Assert((e1 == nil) == (e2 == nil), "drop-array-same-errorness")
+	if e1 == nil && e2 == nil {
+		nd.Assert(o1 == o2, "drop-array-same-output")
+	}
+	nd.Reach("C18.droparrays")
 }
